@@ -5,7 +5,7 @@ CONSTANTS
   MaxSends = 2
   MaxTip = 3
   Mat = 2
-  Answers = {"accepted", "inmempool", "rejected", "notifyfail1", "notifyfail2"}
+  Answers = {"accepted", "inmempool", "rejected", "notifyfail1", "notifyfail2", "badlabel"}
   Acts = {"Receive", "Mine", "Lock", "Lease", "Send", "SendExplicit", "FundOwn", "DryRun", "Restart", "RestartRej"}
   LockCoins = {1}
   MaxHist = 40
